@@ -20,6 +20,14 @@ for f in glob.glob("/verif/evidence/C*.json"):
             byfile.setdefault(x.split(" ")[0], set()).add(e["property_id"])
 
 
+def clean_alt(wt):
+    """remove the per-scratch-tree Kani / replay build directories of the driver (named by md5 of the tree's path)"""
+    import glob, hashlib, shutil
+    h = hashlib.md5(wt.encode()).hexdigest()[:8]
+    for d in glob.glob("/verif/.build/kani/*-" + h) + glob.glob("/verif/.build/kani-alt/*-" + h) + glob.glob("/verif/.build/replay-" + h):
+        shutil.rmtree(d, ignore_errors=True)
+
+
 def one(it):
     name = it["patch"]
     wt = "/tmp/rw/" + name[:-5]
@@ -47,6 +55,7 @@ def one(it):
         return name, out
     finally:
         subprocess.run(["git", "-C", "/repo", "worktree", "remove", "--force", wt])
+        clean_alt(wt)
 
 
 res = json.load(open("/verif/refactors/last_run.json")) if RETRY else {}
